@@ -729,6 +729,8 @@ func gen(r *rand.Rand, tier string) []string {
 	out = append(out, round2Cases(r, tier)...)
 	out = append(out, round3Cases(r, tier)...)
 	out = append(out, round4Cases(r, tier)...)
+	out = append(out, round4csvCases(r, tier)...)
+	out = append(out, round4masCases(r, tier)...)
 	nBig := 3
 	if tier == "thorough" {
 		nBig = 60
